@@ -1,6 +1,6 @@
 """Lexer position bookkeeping kernel (C20 b / C05 b).
 
-Lexer::advance is executed N times (N = 3 quick / 5 thorough) over a sequence of SYMBOLIC characters drawn from
+Lexer::advance is executed N times (N = 3 quick / 4 thorough) over a sequence of SYMBOLIC characters drawn from
 {LF, CR, U+2028, U+2029, TAB, space, 'a', '/', '*', 'é' (2 bytes), '€' (3 bytes), U+1F600 (4 bytes)}; Peekable<CharIndices> is a cursor over
 that symbolic sequence (byte offsets = sums of len_utf8).  After every prefix the lexer's (line, column, current_pos) must equal the
 reference: line = 1 + number of line-terminator sequences consumed (LF, LS, PS, and CR not followed by LF; CRLF counts once),
@@ -17,7 +17,7 @@ from emir.symex import State
 from emir.models import deref
 from . import common
 
-BOUNDS = {'quick': 3, 'thorough': 5}
+BOUNDS = {'quick': 3, 'thorough': 4}
 ALPHA = [0x0A, 0x0D, 0x2028, 0x2029, 0x09, 0x20, 0x61, 0x2F, 0x2A, 0xE9, 0x20AC, 0x1F600]
 KF_CR = 'C20/lexer/bare-CR-not-a-line-terminator'
 
